@@ -123,6 +123,19 @@ def _handle_redirect(
         result.target_stage_ref_id,
     )
 
+    # The stage was reloaded after the task body ran. If the task is no longer
+    # RUNNING, someone else settled it meanwhile (CancelStage canceled it, or a
+    # redelivered RunTask already redirected it): a completed task status is
+    # final, so neither overwrite it nor jump on its behalf.
+    if task_model.status != WorkflowStatus.RUNNING:
+        logger.info(
+            "Ignoring jump request of task %s: task is already %s",
+            task_model.name,
+            task_model.status,
+        )
+        txn_helper.execute_atomic(source_message=message, handler_name="RunTask")
+        return
+
     # The task's part in this iteration is over: record REDIRECT on the task in
     # the SAME commit as the JumpToStage push. A separate CompleteTask(REDIRECT)
     # message can be overtaken by the jump it accompanies: delivered after the
